@@ -328,7 +328,17 @@ func (w *world) obs(target string, withMeta bool) ([]string, error) {
 		if n.Atomic {
 			a = "A"
 		}
-		out = append(out, fmt.Sprintf("%s@%d%s=%s", k, n.Timestamp, a, valBytes(n)))
+		line := fmt.Sprintf("%s@%d%s=%s", k, n.Timestamp, a, valBytes(n))
+		// a leaf holds the notification that was addressed to IT (equal values
+		// would hide a leaf that ended up holding a sibling's update)
+		if !n.Atomic && len(n.Update) == 1 {
+			if own := strings.Join(fullIndex(n.Prefix, n.Update[0].Path), "/"); own != k {
+				line += "!holds-an-update-addressed-to:" + own
+			}
+		} else if !n.Atomic {
+			line += fmt.Sprintf("!holds-a-notification-with-%d-updates-%d-deletes", len(n.Update), len(n.Delete))
+		}
+		out = append(out, line)
 		return nil
 	})
 	sort.Strings(out)
@@ -544,6 +554,16 @@ func (w *world) Apply(i int) []seqmc.Violation {
 				n.Prefix = sp
 			} else {
 				w.shared[key] = n.Prefix
+			}
+		}
+		if o.sharedPath {
+			for _, u := range n.Update {
+				key := "path|" + strings.Join(refIndex(u.Path), "/")
+				if sp := w.shared[key]; sp != nil {
+					u.Path = sp
+				} else {
+					w.shared[key] = u.Path
+				}
 			}
 		}
 		var parts []*pb.Notification
